@@ -182,17 +182,24 @@ func ResolutionNs(tf time.Duration) int64 {
 }
 
 // CheckVarAll compares an all-time result with the model of a variable bucket.
-func (m *MBucket) CheckVarAll(got *Rows) error {
-	if err := CheckSchema(m.B, got); err != nil {
+// skip(slot) excludes intervals inside an open finding's region on both sides.
+func (m *MBucket) CheckVarAll(got *Rows, skip func(slot int64) bool) error {
+	return CheckVar(m.B, m.Var, got, skip)
+}
+
+// CheckVar compares a result with an expected record list (used for all-time
+// and for ranged expectations).
+func CheckVar(b *Bucket, wantRecs []VRec, got *Rows, skip func(slot int64) bool) error {
+	if err := CheckSchema(b, got); err != nil {
 		return err
 	}
 	if got.Len() > 0 && got.Nanos == nil {
 		return fmt.Errorf("variable-length result without Nanoseconds column")
 	}
-	tf := m.B.TFDur()
+	tf := b.TFDur()
 	res := ResolutionNs(tf)
-	if got.Len() != len(m.Var) {
-		return fmt.Errorf("result has %d records, %d were written", got.Len(), len(m.Var))
+	if skip == nil && got.Len() != len(wantRecs) {
+		return fmt.Errorf("result has %d records, %d were written", got.Len(), len(wantRecs))
 	}
 	// time order
 	prev := int64(-1 << 62)
@@ -211,11 +218,17 @@ func (m *MBucket) CheckVarAll(got *Rows) error {
 		}
 		prev = t
 		s := SlotStart(got.Epoch[i], tf)
+		if skip != nil && skip(s) {
+			continue
+		}
 		perSlotGot[s] = append(perSlotGot[s], gotRec{t, string(RowBytes(got, i))})
 	}
 	perSlotWant := map[int64][]gotRec{}
-	for _, v := range m.Var {
+	for _, v := range wantRecs {
 		s := SlotStart(v.TimeNs/1e9, tf)
+		if skip != nil && skip(s) {
+			continue
+		}
 		perSlotWant[s] = append(perSlotWant[s], gotRec{v.TimeNs, string(v.Row)})
 	}
 	for s, w := range perSlotWant {
